@@ -44,6 +44,15 @@ def handle (j : Json) : Option Json := do
       match ex with
       | none => pure (ivlsJ new)
       | some ex => pure (ivlsJ (updateBoundsTS ex new true))
+  | "critchain" =>
+      let gs ← goalsOfJson j "goals"
+      let o ← (getObj j "opts").bind hoptsOfJson
+      let n ← getNat j "n"
+      let r := gs.foldl (fun (acc : Option (List EIvl)) g =>
+        match acc with
+        | none => some (hardCritical o g n)
+        | some ex => some (updateBoundsTS ex (hardCritical o g n) true)) none
+      pure (ivlsJ (r.getD []))
   | "empty" =>
       let g ← (getObj j "goal").bind goalOfJson
       pure (Json.bool g.isEmpty)
